@@ -3,6 +3,7 @@
 package main
 
 import (
+	"context"
 	"database/sql"
 	"errors"
 
@@ -28,6 +29,29 @@ func newObserver(path string) (*observer, error) {
 }
 
 func (o *observer) close() { _ = o.db.Close() }
+
+// holdRead opens a read transaction on a dedicated connection (a shared lock on the database file in rollback-journal
+// mode) and returns the function that ends it
+func (o *observer) holdRead() (func(), error) {
+	ctx := context.Background()
+	conn, err := o.db.Conn(ctx)
+	if err != nil {
+		return nil, err
+	}
+	if _, err := conn.ExecContext(ctx, "BEGIN"); err != nil {
+		_ = conn.Close()
+		return nil, err
+	}
+	var n int
+	if err := conn.QueryRowContext(ctx, "SELECT count(*) FROM promises").Scan(&n); err != nil {
+		_ = conn.Close()
+		return nil, err
+	}
+	return func() {
+		_, _ = conn.ExecContext(ctx, "ROLLBACK")
+		_ = conn.Close()
+	}, nil
+}
 
 type snapshot struct {
 	promises  []*promise.PromiseRecord
